@@ -316,9 +316,20 @@ def observe_pool(arg):
     for it in arg["items"]:
         ats = it["atoms"]
         T = it.get("T")
+        home = T or "public"
+        other = "T1" if home == "public" else "public"
+        tabname = {0: home, 1: other}
         index = {}
         for i, a in enumerate(ats):
             index[(a[0], a[1], a[2])] = i + 1
+
+        def slot(at):
+            """slot of the model bag: atom index, + len(ats) for the other table; 99 for anything else"""
+            kk = key(at)
+            owner = _owner_name(at)
+            if kk not in index or owner not in (home, other):
+                return 99
+            return index[kk] + (len(ats) if owner == other else 0)
         ev = {"id": it["id"], "ops": it["ops"], "steps": []}
         try:
             ev["atoms"] = []
@@ -330,7 +341,8 @@ def observe_pool(arg):
             for op in it["ops"]:
                 k = op["op"]
                 if k == "new":
-                    pool[op["v"]] = _base(op["how"], op["b"], ats, T)
+                    tn = tabname[op.get("t", 0)]
+                    pool[op["v"]] = _base(op["how"], op["b"], ats, None if tn == "public" else tn)
                 elif k == "copy":
                     pool[op["v"]] = P.formula(pool[op["w"]])
                 elif k == "hill":
@@ -345,6 +357,8 @@ def observe_pool(arg):
                     pool[op["a"]] = x
                 elif k == "alias":
                     pool[op["v"]] = pool[op["w"]]
+                elif k == "chtab":
+                    pool[op["a"]].change_table(_tab(tabname[op["t"]]))
                 step = {"pool": []}
                 ids = {}
                 for v in it["vars"]:
@@ -353,23 +367,18 @@ def observe_pool(arg):
                         step["pool"].append({"bound": False})
                         continue
                     cls = ids.setdefault(id(f), len(ids) + 1)
-                    b = []
+                    b = {}
                     for at, c in f.atoms.items():
-                        kk = key(at)
-                        owner = _owner_name(at)
-                        if kk not in index or (T or "public") != owner:
-                            b.append({"i": 99, "c": dec.to_dec(c)})
-                        else:
-                            b.append({"i": index[kk], "c": dec.to_dec(c)})
-                    step["pool"].append({"bound": True, "bag": [x for x in sorted(b, key=lambda x: x["i"]) if x["c"]["s"] != 0],
+                        b[slot(at)] = b.get(slot(at), 0) + c
+                    step["pool"].append({"bound": True, "bag": [{"i": i, "c": dec.to_dec(c)} for i, c in sorted(b.items()) if c != 0],
                                          "cls": cls})
-                wv = op["a"] if k == "iadd" else op["v"]
+                wv = op["a"] if k in ("iadd", "chtab") else op["v"]
                 f = pool[wv]
                 try:
                     fr = f.mass_fraction if f.mass else {}
                     step["num"] = {"mass": dec.to_dec(f.mass), "charge": dec.to_dec(f.charge),
                                    "molecular_mass": dec.to_dec(f.molecular_mass),
-                                   "frac": [{"i": index.get(key(at), 99), "c": dec.to_dec(c)} for at, c in fr.items()]}
+                                   "frac": [{"i": slot(at), "c": dec.to_dec(c)} for at, c in fr.items()]}
                 except Exception as e:
                     step["num"] = {"exc": type(e).__name__}
                 ev["steps"].append(step)
